@@ -75,9 +75,12 @@ def handle (op : String) (req : Json) : R Json := do
     if wt == .custom && (usableRows rows).any (fun r => r.cw.isNone) then
       throw "NaN custom weight on a usable row (outside the property)"
     let fit := updateLinreg wt rows
-    let l := fitPts wt rows
-    let fitted := !rows.isEmpty && (usableRows rows).length ≥ 2
-    -- specification: textbook centred form, squared weighted correlation, residual variance with raw sums
+    -- specification: evaluated on the NaN-free table alone (`specPts`: entry-by-entry weights, no mask, no
+    -- replacement pass; the harness sends the NaN-free table itself for the value it judges against): textbook
+    -- centred form, squared weighted correlation, residual variance with raw sums (`fit_is_specification`)
+    let clean := rows.filter (fun r => r.x.isSome && r.y.isSome)
+    let l := specPts wt clean
+    let fitted := clean.length ≥ 2
     let spec : Json :=
       if fitted then
         jObj [("gradient", jRat (specGradient l)), ("intercept", jRat (specIntercept l)),
@@ -103,7 +106,8 @@ def handle (op : String) (req : Json) : R Json := do
           us.any (fun p => us.any (fun q => decide (p.x ≠ q.x))) && hasNonzero col
         | .custom => false)),
       ("spec_weights_finite", jBool (finiteAtFinite col specW)),
-      ("fit_weights", jList jRat (l.map (·.w))),
+      ("fit_weights", jList jRat ((fitPts wt rows).map (·.w))),
+      ("mech_pts_are_spec_pts", jBool (fitPts wt rows == l)),
       ("usable", jNat (usableRows rows).length),
       ("fitted", jBool fitted),
       ("model", jFit fit),
